@@ -18,7 +18,8 @@ META = {
     "written (writer/reader key agreement); (c) every path shape over {node, link, other}^1..L with and "
     "without origin/destination: well-formed => exact graph, malformed => TypeError/ValueError, and after "
     "any outcome every graph node is a Node"
-    "; the link views (interpreted from views.py) read back exactly the edges written on a network with a two-way road and a self-loop; add_path over an existing edge replaces its link",
+    "; the link views (interpreted from views.py) read back exactly the edges written on a network with a two-way road and a self-loop; add_path over an existing edge replaces its link"
+    "; every lookup read before and after each call of a longer construction sequence (CPython caching, real decorator)",
     "explanation": "add_node(s)/add_link(s)/add_origin/add_destination/add_path are interpreted from source "
     "on a model of networkx's mutators; path shapes are enumerated exhaustively up to length L (quick 5, "
     "thorough 7) - the loop in add_path is a two-state machine, so longer paths repeat these transitions.",
